@@ -19,17 +19,6 @@ consumption) is rightly outside: there the real code recurses for ever.
 -/
 namespace PP.Parse
 
-/-- operands of an `And` (after the first) that are entered without prior consumption -/
-def andLeft (g : Grammar) (k : Nat) : List Nat → List Nat
-  | [] => []
-  | e :: es => if stopFn g e then andLeft g k es else if consumes g k e then [e] else e :: andLeft g k es
-
-/-- the references of a node that can be entered at the node's own location -/
-def leftChildren (g : Grammar) (k : Nat) (nd : Node) : List Nat :=
-  (match nd.kind with
-   | .and (e0 :: rest) => e0 :: (if consumes g k e0 then [] else andLeft g k rest)
-   | kd => kd.children) ++ nd.ignore
-
 /-- **the test**: closed table, left references decrease the rank, ranks `≤ R`, StringStart without ignorables -/
 def leftRankOk (g : Grammar) (r : Nat → Nat) (k R : Nat) : Bool :=
   (List.range g.length).all fun i =>
